@@ -192,6 +192,27 @@ CLAIMED = {
              "computed by harness and checker (TLC cannot look inside strings). ASTs with no text form are outside the statement.",
         technique="TLA+ lexer, parser and evaluator as the judge; TLC-enumerated ASTs rendered and reparsed by the Go code; TLC trace "
                   "validation of every recorded rendering (text read by the specification) and of recorded random policies"),
+    "C12": dict(
+        category="model_checking",
+        text="spec/TextForms.tla (over CedarExt / Num64 / Syntax) is the documented text syntax of every scalar kind as parsers over "
+             "code-point sequences with exact multi-limb arithmetic and the 64-bit range, the specification's own reader of Cedar "
+             "expression text (lexer + grammar + evaluator) and exact constructors (i * 10^e or failure). TLC computes the verdict "
+             "for ~3.7k literals assembled from components at their boundaries (sign x integer x fraction; year x month-day x "
+             "time / offset incl. expanded years; unit subsets in and out of order with quantities at every overflow edge; v4 / v6 "
+             "forms x prefix suffixes), for every single-character deletion / replacement / insertion / transposition of 11 "
+             "representative literals (~13k), and for NewDecimal over boundary longs and wrap-around candidates x exponents "
+             "-6..16, NewDecimalFromInt and NewDecimalFromFloat (exact doubles, range edge, NaN, infinities); the harness runs "
+             "types.Parse*, the typed __extn JSON decoders, the constructor functions through the evaluator and types.New*. "
+             "In the other direction values of every kind at their boundaries and at random -- and every Unicode scalar value as "
+             "string / entity id (thorough; every 257th quick) -- are printed by the real String() / MarshalCedar(); TLC reads the "
+             "recorded code points with the specification's parsers and compares with the value, and checks what the real parsers "
+             "and the real parser + evaluator read back (Trace_Text).",
+        design_ref="DESIGN.md 4 C12",
+        note=TRUSTED + "Unicode printability tables are not modelled (any escape that unescapes to the character is accepted). "
+             "NewDecimalFromFloat is documented as approximate: exactness only where the product is exact in a double; at the range "
+             "edge only 'error, never a wrapped value'. Exhaustive inside the tables and the Unicode sweep, sampled for random values.",
+        technique="TLA+ literal parsers and expression reader as the oracle; TLC-generated parse / constructor tables replayed into the "
+                  "Go parsers and constructors; TLC trace validation of recorded print -> parse round trips (text read by the specification)"),
 }
 
 PENDING ="check under construction in this session (the specification modules it needs are being written; see DESIGN.md 10)"
